@@ -14,9 +14,15 @@ def run(tier):
                    what='all 4096 digraphs on 4 nodes',
                    bounds='n=4, all 2^12 edge relations, 16 partitions on the first 4 edge bits', functions=FUNCS_A),
     ]
+    if tier == 'thorough':
+        obs.append(Obligation('order5', 'harness/c09.py', 'h_order5', timeout=1200,
+                              partitions=[list(p) for p in itertools.product([False, True], repeat=8)],
+                              what='all 2^20 digraphs on 5 nodes', bounds='n=5, 256 partitions on the first 8 edge bits; partitions not exhausted within the budget are listed',
+                              functions=FUNCS_A))
     gparts = [[0, 0, 0]] + [[k, l, f] for k in range(1, 5) for l in range(2)
                             for f in (range(3) if tier == 'thorough' else range(1))]
     obs.append(Obligation('evolution_graph', 'harness/c09.py', 'h_evolution_graph', partitions=gparts, timeout=600,
+                          twin_partition=[1, 0, 0],
                           what='EvolutionGraph over three fake apps: sequence order inside an app, one declared AFTER/BEFORE_EVOLUTIONS requirement at evolution or app level targeting an evolution or a whole app, both registration orders, already-applied prefixes: every pending evolution exactly once, requirements between pending units honoured, requirements on applied units ignored',
                           bounds='3 apps x 0-2 evolutions x applied prefix 0..n x 4 dependency kinds x 2 levels x source/target app and label x 2 registration orders',
                           functions=['utils/graph.py EvolutionGraph.add_evolutions, mark_evolutions_applied, iter_batches, _add_evolution*, DependencyGraph.*',
